@@ -710,9 +710,9 @@ func c18R3(p *core.Program, r *core.Report) {
 	}
 	// runtime lookups: (receiver struct of the calling method, key)
 	type use struct {
-		owner string
-		key   string
-		pos   token.Pos
+		owner  string
+		key    string
+		pos    token.Pos
 		uuidOf []string // the struct types the UUID handed to the lookup is read from
 	}
 	var uses []use
